@@ -30,7 +30,8 @@ def tag_of(exc):
     return None
 
 
-FATAL = ['handler', 'calc', 'montask', 'abort', 'ctrl_abort', 'ctrl_shutdown', 'shutdown', 'handler_direct']
+FATAL = ['handler', 'calc', 'montask', 'abort', 'ctrl_abort', 'ctrl_shutdown', 'shutdown', 'handler_direct',
+         'sim_abort_calc', 'sim_stop_calc']
 HARMLESS = ['param', 'unknown']
 
 
@@ -62,6 +63,16 @@ class C09(common.Spec):
                 def _event_needs(self, *, needed, **_d):
                     return None
 
+                def _event_relay(self, *, value, **_d):
+                    # reached from a CBlock's on_output, i.e. inside the simulation task, in the same
+                    # evaluation round as the failing calc_output of the next block
+                    if isinstance(value, tuple) and value and value[0] == 'boom':
+                        if value[2] == 'abort':
+                            log.append(['src', 'abort', value[1] + 500])
+                            self.circuit.abort(Tagged(value[1] + 500))
+                        else:
+                            self.circuit.abort(asyncio.CancelledError('stop requested by a block'))
+
                 def stop(self):
                     if case.get('stop_error'):
                         raise RuntimeError('stop failed')
@@ -92,6 +103,9 @@ class C09(common.Spec):
             mt = MT('mt')
             trig = edzed.Input('trig', initdef=0)
             edzed.FuncBlock('fb', func=calc).connect(trig)
+            trig2 = edzed.Input('trig2', initdef=0)
+            edzed.FuncBlock('fb2', func=lambda v: v, on_output=edzed.Event(hp, 'relay')).connect(trig2)
+            edzed.FuncBlock('fb3', func=calc).connect('fb2')
             if case.get('async_init_error'):
                 AI('ai', initdef=1)
             if case.get('restore_error'):
@@ -152,6 +166,10 @@ class C09(common.Spec):
                             hp.event('boom', value=tag)
                         elif kind == 'calc':
                             edzed.ExtEvent(trig).send(('boom', tag))
+                        elif kind == 'sim_abort_calc':
+                            edzed.ExtEvent(trig2).send(('boom', tag, 'abort'))
+                        elif kind == 'sim_stop_calc':
+                            edzed.ExtEvent(trig2).send(('boom', tag, 'stop'))
                         elif kind == 'montask':
                             mt.fail_tag = tag
                             mt.wake.set()
@@ -301,7 +319,7 @@ def gen_case(rng):
 
 def check(run):
     spec = C09()
-    run.rule = ("orderings of 1..3 error sources (failing event handler reached through ExtEvent or "
+    run.rule = ("orderings of 1..3 error sources (abort()/stop request and a failing calc_output in ONE evaluation round inside the simulation task; failing event handler reached through ExtEvent or "
                 "directly, failing calc_output, failing monitored block task, abort(), 'abort' and "
                 "'shutdown' control events, shutdown(), abort() before the start, external events with "
                 "wrong parameters / unknown type) fired at chosen virtual instants incl. the same "
